@@ -120,9 +120,17 @@ def run(ctx):
     gb = [n for n in A.walk_local(g) if isinstance(n, ast.Call) and (A.dotted(n.func) or '').endswith('groupby')
           and A.dotted(n.func) != 'self.groupby']
     ok_pos = False
-    if gb and len(gb[0].args) == 2 and isinstance(gb[0].args[1], ast.Lambda):
-        lam = gb[0].args[1]
-        ok_key = isinstance(lam.body, ast.Subscript) and A.int_value(lam.body.slice) == 1
+    def key_position(kf):
+        """which position of the (index, id) pair the grouping key reads: lambda p: p[k], operator.itemgetter(k),
+        lambda (unpacked) ...; None if unrecognised"""
+        if isinstance(kf, ast.Lambda) and isinstance(kf.body, ast.Subscript) and len(kf.args.args) == 1 \
+                and A.is_name(kf.body.value, kf.args.args[0].arg):
+            return A.int_value(kf.body.slice)
+        if isinstance(kf, ast.Call) and (A.dotted(kf.func) or '').split('.')[-1] == 'itemgetter' and len(kf.args) == 1:
+            return A.int_value(kf.args[0])
+        return None
+    if gb and len(gb[0].args) == 2 and key_position(flow.expand(gb[0].args[1], g)) is not None:
+        ok_key = key_position(flow.expand(gb[0].args[1], g)) == 1
         idx_ok = False
         for n in A.walk_local(g):
             if isinstance(n, ast.ListComp) and isinstance(n.elt, ast.Subscript) and A.int_value(n.elt.slice) == 0:
@@ -133,9 +141,13 @@ def run(ctx):
         ok_pos = ok_key and idx_ok
     elif not gb:
         raise AnalysisError('undecidable shape: Dataset.groupby does not use itertools.groupby')
-    rep.ob('GB', K.key(base, 'groupby', 'pair-positions(index=0,group-id=1)'), ok_pos, gb[0],
-           '' if ok_pos else 'enumerate yields (index, group id): the grouping key must read position 1 and the '
-           'collected indices position 0')
+    if gb and len(gb[0].args) == 2 and key_position(flow.expand(gb[0].args[1], g)) is None:
+        rep.undecided('GB', K.key(base, 'groupby', 'pair-positions(index=0,group-id=1)'), gb[0],
+                      'unrecognised grouping key function `%s`' % A.short(gb[0].args[1], 50))
+    else:
+        rep.ob('GB', K.key(base, 'groupby', 'pair-positions(index=0,group-id=1)'), ok_pos, gb[0],
+               '' if ok_pos else 'enumerate yields (index, group id): the grouping key must read position 1 and the '
+               'collected indices position 0')
     acc_ok = False
     for n in A.walk_local(g):
         if isinstance(n, ast.AugAssign) and isinstance(n.op, ast.Add) and isinstance(n.target, ast.Subscript):
